@@ -127,6 +127,7 @@ class ProcSetup:
                         if P is not None:
                             P.value = _name(P.value, "P%d_" % k)
                     fr = sys._getframe(1)
+                    old_T = None
                     for _ in range(4):
                         if fr is None:
                             break
@@ -135,15 +136,17 @@ class ProcSetup:
                             for lname in ("feed_mass", "feed_temperature"):
                                 lst = loc.get(lname)
                                 if isinstance(lst, list) and lst:
+                                    if lname == "feed_temperature":
+                                        old_T = lst[-1]
                                     lst[-1] = _name(lst[-1], lname[5] + "%d_" % k)
                             break
                         fr = fr.f_back
-                    if isinstance(args["feed_temperature"], SReal):
-                        # the argument was read before the list element was renamed
-                        loc = fr.f_locals if fr is not None else {}
-                        ft = loc.get("feed_temperature")
-                        if isinstance(ft, list) and ft:
-                            args["feed_temperature"] = ft[-1]
+                    aT = args["feed_temperature"]
+                    if isinstance(aT, SReal) and isinstance(old_T, SReal) and (aT is old_T or z3.eq(aT.t, old_T.t)):
+                        # the argument was read before the list element was renamed -- only when it *is* that element:
+                        # a temperature argument that is some other term stays what the caller passed
+                        ft = fr.f_locals.get("feed_temperature")
+                        args["feed_temperature"] = ft[-1]
                 name = "%s_%s_%s" % (args["calculation_type"], comp.type,
                                      "vac" if args["permeate_temperature"] is None and args["permeate_pressure"] is None
                                      else "ptemp" if args["permeate_pressure"] is None else "ppres" if args["permeate_temperature"] is None else "both")
